@@ -13,7 +13,7 @@ TECHNIQUE = "explicit enumeration of all event histories (execute / check-condit
 RULE = ("all sequences of up to D events (D=5 quick, 6 thorough) over {execute GOOD, execute CHECK CONDITION, replug (node replaced by a new "
         "inode), unplug, sabotage (next close() of the live handle fails with EBADF), open-fault (the next open() of the device path fails once with EACCES)}, each followed by every closing event {none, close(), "
         "with-block normal exit, with-block exit by exception, SCSI facade with-block exit, exit of a facade that was used for and left another device before}, x replug detection {on, off} x {read-only, "
-        "read-write}; histories one event shorter also with the device path being a symbolic link to the node that is replaced, with the node being a character special file replaced by one of the same device number, and with the path being a link re-pointed to a node of another name while the old node stays (device object from init_device); histories with an unplug also with the node vanishing as ELOOP (self-referencing link) and ENOTDIR (its directory replaced by a file); histories with a command also with every command executed with en_raw_sense=True (the ATA PASS-THROUGH path); histories without open-fault also over a class derived from SCSIDevice that overrides open() (os.open + os.fdopen, _file and _ino set as the inherited open() does); plus ISCSIDevice close/with/disconnect histories. states = distinct (reference-model state, observed handle set) "
+        "read-write}; histories one event shorter also with the device path being a symbolic link to the node that is replaced, with the node being a character special file replaced by one of the same device number, and with the path being a link re-pointed to a node of another name while the old node stays (device object from init_device); histories with an unplug also with the node vanishing as ELOOP (self-referencing link) and ENOTDIR (its directory replaced by a file); histories with a command also with every command executed with en_raw_sense=True (the ATA PASS-THROUGH path); histories without open-fault also over a class derived from SCSIDevice that overrides open() (os.open + os.fdopen, _file and _ino set as the inherited open() does); an asynchronous KeyboardInterrupt at every source line of one execute() after 6 short prefixes (node left alone / replaced / removed and replaced ...): passed on, the next execute uses one handle to the node now at the path and leaves exactly that handle open; plus ISCSIDevice close/with/disconnect histories. states = distinct (reference-model state, observed handle set) "
         "pairs; transitions = events executed on the real device. Non-trivial = history contains replug, unplug or sabotage.")
 ASSUMPTIONS = [
     "device nodes are real files under /dev/shm/pyscsi-verif-<pid>/ (real inodes, real open/stat/close); replug = rename of a new file over the path, old inode kept alive by a hard link so inode numbers are never recycled",
@@ -39,6 +39,7 @@ def partitions(tier):
             for e1 in EVENTS:
                 parts.append(["sg", detect, rw, e1])
     parts.append(["iscsi"])
+    parts.append(["interrupt"])
     return parts
 
 
@@ -278,6 +279,104 @@ def run_history(detect, rw, events, closer, obs=None, symlink=False, chr=False, 
     return out
 
 
+def run_interrupt(detect, rw, pre, acc=None, only=None):
+    """an asynchronous KeyboardInterrupt at the k-th source line the library executes during one execute() (for every k), the node
+    having been replaced / removed-and-replaced / left alone before: the interrupt reaches the caller; the NEXT execute goes through a
+    handle to the node now at the path, exactly once, and afterwards exactly that one handle is open (nothing stale, nothing leaked)"""
+    import sys
+    install.ensure()
+    from pyscsi.pyscsi.scsi_cdb_testunitready import TestUnitReady
+    from pyscsi.pyscsi.scsi_device import SCSIDevice
+    import pyscsi.pyscsi.scsi_device as devmod
+    pre_path = os.path.dirname(os.path.dirname(devmod.__file__)) + os.sep
+    out = []
+    k = 0 if only is None else only
+    while True:
+        seen = []
+        node = nodes.Node(lambda g: Target())
+
+        def hook(file, st, cdb, dout, din):
+            try:
+                cur = os.stat(node.path).st_ino
+            except OSError:
+                cur = None
+            seen.append((st.st_ino, cur))
+        registry.sgio_hooks.append(hook)
+        dev = None
+        try:
+            dev = SCSIDevice(node.path, rw, detect)
+            for ev in pre:
+                if ev == "r":
+                    node.plug()
+                elif ev == "u":
+                    node.unplug()
+                elif ev == "x":
+                    dev.execute(TestUnitReady(dev.opcodes.TEST_UNIT_READY))
+            state = {"n": 0, "fired": None}
+            boom = KeyboardInterrupt()
+
+            def tracer(frame, event, arg):
+                if not frame.f_code.co_filename.startswith(pre_path):
+                    return None
+                return line_tracer
+
+            def line_tracer(frame, event, arg):
+                if event == "line" and state["fired"] is None:
+                    if state["n"] == k:
+                        state["fired"] = "%s:%d" % (os.path.basename(frame.f_code.co_filename), frame.f_lineno)
+                        raise boom
+                    state["n"] += 1
+                return line_tracer
+            sys.settrace(tracer)
+            try:
+                try:
+                    dev.execute(TestUnitReady(dev.opcodes.TEST_UNIT_READY))
+                    got = "returned normally"
+                except BaseException as e:   # noqa: BLE001
+                    got = e
+            finally:
+                sys.settrace(None)
+            if state["fired"] is None:
+                return out, k
+            if acc is not None:
+                acc.transitions += 2
+            where = "execute after %r (detect=%s, %s) interrupted at library line #%d (%s)" % (pre, detect, "read-write" if rw else "read-only", k, state["fired"])
+            if got is not boom:
+                out.append(("interrupt/not_passed_on", "%s: the caller saw %r" % (where, got)))
+            n0 = len(seen)
+            try:
+                dev.execute(TestUnitReady(dev.opcodes.TEST_UNIT_READY))
+                oc = "returned"
+            except Exception as e:   # noqa: BLE001
+                oc = "raised %s: %s" % (type(e).__name__, e)
+            sent = seen[n0:]
+            want_gen = node.generation if detect else 1
+            if oc != "returned" or len(sent) != 1:
+                out.append(("interrupt/next_execute", "%s: the next execute %s, %d submission(s)" % (where, oc, len(sent))))
+            elif node.generation_of(sent[0][0]) != want_gen:
+                out.append(("interrupt/stale_handle_used", "%s: the next execute went through the handle of generation %s, the node at the path is generation %s"
+                            % (where, node.generation_of(sent[0][0]), node.generation)))
+            hs = [g for _, g in node.open_handles()]
+            if hs != [want_gen]:
+                out.append(("interrupt/handle_population", "%s: after the next execute the open handles (by generation) are %r, expected [%d]" % (where, hs, want_gen)))
+        finally:
+            registry.sgio_hooks.remove(hook)
+            for fd, _ in node.open_handles():
+                try:
+                    os.close(fd)
+                except OSError:
+                    pass
+            if dev is not None and getattr(dev, "_file", None) is not None:
+                try:
+                    dev._file.close()
+                except Exception:   # noqa: BLE001
+                    pass
+            node.destroy()
+        if out or only is not None:
+            return out, k + 1
+        k += 1
+
+
 def _oc(oc):
     return "returned" if oc[0] == "ret" else "raised %s(%s)" % (type(oc[1]).__name__, oc[1])
 
@@ -359,6 +458,8 @@ def run_iscsi(seq, obs=None):
 
 
 def run_case(case, obs=None):
+    if case[0] == "interrupt":
+        return run_interrupt(case[1], case[2], case[3], None, case[4])[0]
     if case[0] == "sg":
         _, detect, rw, events, closer = case[:5]
         kind = case[5] if len(case) > 5 else 0
@@ -392,6 +493,19 @@ def run_partition(part, tier, seed):
         acc.transitions += nev + 1
         acc.traces += 1
 
+    if part[0] == "interrupt":
+        for detect in (True, False):
+            for rw in (False, True):
+                for pre in ("", "r", "xr", "ur", "rr", "xrx"):
+                    v, npoints = run_interrupt(detect, rw, pre, acc)
+                    acc.add("interruption_points", npoints)
+                    acc.traces += npoints
+                    case = ["interrupt", detect, rw, pre, npoints - 1 if v else None]
+                    acc.case(case, nontrivial=True, key=repr(case[:4]))
+                    for k, w in v:
+                        acc.violation(k, w, case)
+                    acc.outcome((detect, rw, pre, npoints, tuple(k for k, _ in v)))
+        return acc
     if part[0] == "iscsi":
         for n in range(0, 4):
             for evs in itertools.product("xc", repeat=n):
